@@ -53,6 +53,8 @@ fn name_elided_lifetimes(
         lifetime: syn::Lifetime,
         found: usize,
         rename: bool,
+        /// the lifetimes that are written out (`'a`, `'static`), one entry per position
+        written: Vec<syn::Lifetime>,
     }
 
     impl VisitMut for Namer {
@@ -72,6 +74,8 @@ fn name_elided_lifetimes(
                     *lifetime = self.lifetime.clone();
                 }
                 self.found += 1;
+            } else {
+                self.written.push(lifetime.clone());
             }
         }
 
@@ -90,21 +94,36 @@ fn name_elided_lifetimes(
             .unwrap_or_else(|| syn::Lifetime::new("'__impl", proc_macro2::Span::call_site())),
         found: 0,
         rename: false,
+        written: vec![],
     };
+    let mut declared = declared;
 
     if with_inputs {
-        // count first: with more (or less) than one elided input lifetime the output cannot have elided ones
+        // count first: elided lifetimes in the output stand for the one lifetime of the inputs, elided or written
+        // (with more or less than one lifetime position in the inputs the output cannot have elided ones)
         namer.visit_return_type_mut(&mut sig.output);
         let in_output = std::mem::take(&mut namer.found);
+        namer.written.clear();
         for input in sig.inputs.iter_mut() {
             namer.visit_fn_arg_mut(input);
         }
-        if in_output == 0 || std::mem::take(&mut namer.found) != 1 {
+        let elided_inputs = std::mem::take(&mut namer.found);
+        let written_inputs = std::mem::take(&mut namer.written);
+        if in_output == 0 || elided_inputs + written_inputs.len() != 1 {
             return None;
         }
-        namer.rename = true;
-        for input in sig.inputs.iter_mut() {
-            namer.visit_fn_arg_mut(input);
+        match written_inputs.into_iter().next() {
+            // `fn f<'a>(x: &'a str) -> &str`: the output gets the lifetime that is written
+            Some(written) => {
+                namer.lifetime = written;
+                declared = true;
+            }
+            None => {
+                namer.rename = true;
+                for input in sig.inputs.iter_mut() {
+                    namer.visit_fn_arg_mut(input);
+                }
+            }
         }
     }
 
